@@ -495,7 +495,7 @@ Definition end_pass (cf : config) (st : gstate) : option gstate :=
   let pw' := pw_merge (cf_tc cf) (pw_sum (cf_k cf) (g_ws st)) (g_pw st) in
   let md' := md_merge (g_md st) pmd in
   if md_gain pmd =? 0 then
-    Some (mkG (g_locks st) (g_part st) (g_ws st) pw' (g_tmax st) md' true)
+    Some (mkG (g_locks st) (g_part st) [] pw' (g_tmax st) md' true)   (* no worker is left *)
   else
     match thread_max cf pw' with
     | None => None
